@@ -122,7 +122,7 @@ func (w *vWorld) runParStep(nextId *int64, ops []vReq, sched []int) {
 			a := &vActor{id: len(actors), resume: make(chan struct{})}
 			a.body = func() {
 				w.Issue(id, rr)
-				w.tr.Emit(map[string]interface{}{"e": "ret", "id": id, "t": w.now})
+				w.tr.Emit(map[string]interface{}{"e": "ret", "id": id, "t": w.sec(), "ms": w.ms()})
 			}
 			actors = append(actors, a)
 		case "tick":
